@@ -11,13 +11,18 @@ fuel and any starting state left behind by earlier calls:
 * `only_below_touched`  a visit of `m` touches `m` and modules below it only: elaborating a design never
                         changes a module outside it.
 
-What is **not** proved here: that the state every module ends in is the canonical one whatever the
-interleaving of calls (DESIGN.md §6 C07 `history_independent`, which needs the per-pass stability
-conditions of the concrete passes).  That clause is decided by the correspondence only: all orders and
-groupings of elaborate / to_proto / netlist calls over small DAGs, each history in a fresh interpreter,
-compared byte for byte with the single-call package.
+* `history_independent`  (Lemmas/RunnerCanon.lean) for every sequence of `elaborate` calls over any lists of tops, from
+                        the fresh state: every module below any top of any call ends with all passes done and in the
+                        canonical state `C n x` — the same whether its sub-modules were elaborated earlier, alone, in
+                        lists, under other parents, or never; `same_as_elaborated_alone`, `elaborating_again_changes_nothing`.
+                        One hypothesis about the concrete passes, `Stable`: pass `k` on `x` in state `C k x` returns
+                        `C (k+1) x` whatever later canonical state the modules below `x` are in and whatever other modules
+                        look like (and does not fail).  That hypothesis is what the correspondence decides for the real
+                        passes: all orders and groupings of elaborate / to_proto / netlist calls over small DAGs, each
+                        history in a fresh interpreter, compared byte for byte with the single-call package.
 -/
 import Hdl21Model.Lemmas.Runner
+import Hdl21Model.Lemmas.RunnerCanon
 namespace Hdl21.Props.C07
 open Hdl21.Runner
 
@@ -83,5 +88,73 @@ theorem visit_runs_pass (sys : Sys S) (k fuel : Nat) (st : RState S) (m : Nat)
     cases happ : sys.apply k r1.σ m with
     | none => simp [happ] at hok
     | some s => exact ⟨r1, s, happ, by simp⟩
+
+/-! ## history independence -/
+
+/-- The state after any sequence of `elaborate` calls. -/
+def after (sys : Sys S) (n fuel : Nat) (calls : List (List Nat)) (st : RState S) : RState S :=
+  calls.foldl (fun st tops => (elaborate sys n fuel tops st).1) st
+
+theorem after_keeps (sys : Sys S) (hdag : ∀ m c, c ∈ sys.children m → c < m) (C : Nat → Nat → S) (n : Nat)
+    (hst : Stable sys C n) (fuel : Nat) :
+    ∀ (calls : List (List Nat)) (st : RState S), (∀ tops ∈ calls, ∀ t ∈ tops, t < fuel) → Inv sys C n st →
+      Inv sys C n (after sys n fuel calls st) ∧
+      (∀ x, Lev C st x n → Lev C (after sys n fuel calls st) x n) ∧
+      (∀ tops ∈ calls, ∀ t ∈ tops, ∀ y, Reach sys t y → Lev C (after sys n fuel calls st) y n) := by
+  intro calls
+  induction calls with
+  | nil => intro st _ hi; exact ⟨hi, (fun x h => h), (fun tops h => by cases h)⟩
+  | cons tops rest ih =>
+    intro st hf hi
+    obtain ⟨_, inv1, below1, lev1⟩ := elaborate_keeps sys hdag C n hst fuel tops (hf tops (List.mem_cons_self ..)) st hi
+    obtain ⟨inv2, lev2, below2⟩ := ih (elaborate sys n fuel tops st).1 (fun t ht => hf t (List.mem_cons_of_mem _ ht)) inv1
+    refine ⟨inv2, (fun x h => lev2 x (lev1 x h)), ?_⟩
+    intro tops' ht' t ht y hy
+    rcases List.mem_cons.mp ht' with rfl | h
+    · exact lev2 y (below1 t ht y hy)
+    · exact below2 tops' h t ht y hy
+
+/-- **History independence.** After any sequence of `elaborate` calls from the fresh state, every module below any top
+    of any call has had all `n` passes and is in the canonical state `C n y`. -/
+theorem history_independent (sys : Sys S) (hdag : ∀ m c, c ∈ sys.children m → c < m) (C : Nat → Nat → S) (n : Nat)
+    (hst : Stable sys C n) (fuel : Nat) (calls : List (List Nat)) (hf : ∀ tops ∈ calls, ∀ t ∈ tops, t < fuel) :
+    ∀ tops ∈ calls, ∀ t ∈ tops, ∀ y, Reach sys t y →
+      (after sys n fuel calls (fresh C)).σ y = C n y ∧ ∀ j, (after sys n fuel calls (fresh C)).done j y = true ↔ j < n := by
+  intro tops ht t htt y hy
+  have := (after_keeps sys hdag C n hst fuel calls (fresh C) hf (inv_fresh sys C n)).2.2 tops ht t htt y hy
+  exact ⟨this.2, this.1⟩
+
+/-- … which is the state the module gets when it is elaborated alone, first thing. -/
+theorem same_as_elaborated_alone (sys : Sys S) (hdag : ∀ m c, c ∈ sys.children m → c < m) (C : Nat → Nat → S) (n : Nat)
+    (hst : Stable sys C n) (fuel : Nat) (calls : List (List Nat)) (hf : ∀ tops ∈ calls, ∀ t ∈ tops, t < fuel)
+    (tops : List Nat) (ht : tops ∈ calls) (t : Nat) (htt : t ∈ tops) (y : Nat) (hy : Reach sys t y) (hyf : y < fuel) :
+    (after sys n fuel calls (fresh C)).σ y = (elaborate sys n fuel [y] (fresh C)).1.σ y := by
+  rw [(history_independent sys hdag C n hst fuel calls hf tops ht t htt y hy).1]
+  have := history_independent sys hdag C n hst fuel [[y]] (by intro tp h t' ht'; simp at h; subst h; simp at ht'; subst ht'; exact hyf)
+    [y] (List.mem_singleton.mpr rfl) y (List.mem_singleton.mpr rfl) y (.refl y)
+  simp only [after, List.foldl_cons, List.foldl_nil] at this
+  exact this.1.symm
+
+/-- Elaborating again changes nothing below what was completed. -/
+theorem elaborating_again_changes_nothing (sys : Sys S) (hdag : ∀ m c, c ∈ sys.children m → c < m) (C : Nat → Nat → S) (n : Nat)
+    (hst : Stable sys C n) (fuel : Nat) (calls more : List (List Nat))
+    (hf : ∀ tops ∈ calls ++ more, ∀ t ∈ tops, t < fuel)
+    (tops : List Nat) (ht : tops ∈ calls) (t : Nat) (htt : t ∈ tops) (y : Nat) (hy : Reach sys t y) :
+    (after sys n fuel (calls ++ more) (fresh C)).σ y = (after sys n fuel calls (fresh C)).σ y := by
+  rw [(history_independent sys hdag C n hst fuel (calls ++ more) hf tops (List.mem_append_left _ ht) t htt y hy).1,
+      (history_independent sys hdag C n hst fuel calls (fun tp h => hf tp (List.mem_append_left _ h)) tops ht t htt y hy).1]
+
+/-! Non-vacuity: a chain `0 ← 1 ← 2 ← …` whose passes count how often they ran; the hypothesis `Stable` holds. -/
+def chain : Sys Nat := { children := fun m => if m = 0 then [] else [m - 1], apply := fun _ σ m => some (σ m + 1) }
+example : Stable chain (fun l _ => l) 5 := by
+  intro k x σ _ hc
+  simp only [chain]
+  rw [hc.1]
+example : ∀ m c, c ∈ chain.children m → c < m := by
+  intro m c h
+  simp only [chain] at h
+  split at h
+  · cases h
+  · simp at h; omega
 
 end Hdl21.Props.C07
